@@ -80,6 +80,21 @@ pub fn gen_cases(prop: &str, seed: u64, n: u64, out: &str) {
         }
         let qb = rn::encode(&q, rn::Compress::None);
         let repeat = prop == "C03" && r.chance(1, 10) && q.questions[0].qclass == 1;
+        // what the upstream sends over UDP when the full reply exceeds erbium's advertised 4096: TC set and either nothing
+        // or (as most servers do) the whole records that still fit
+        let mut upstream_udp: Option<Vec<u8>> = None;
+        if ub.len() > 4000 && r.bool() {
+            let mut part = up.clone();
+            part.flags |= 0x0200;
+            while rn::encode(&part, rn::Compress::None).len() > 4000 {
+                if part.additional.pop().is_none() && part.authority.pop().is_none() && part.answer.pop().is_none() {
+                    break;
+                }
+            }
+            upstream_udp = Some(rn::encode(&part, rn::Compress::None));
+        }
+        // C04: the same question again over the other transport while the first answer may still be cached
+        let second = if prop == "C04" && r.chance(1, 3) && q.questions[0].qclass == 1 { Some(if transport == "udp" { "tcp" } else { "udp" }) } else { None };
         lines.push(
             json!({
                 "case": case,
@@ -88,7 +103,9 @@ pub fn gen_cases(prop: &str, seed: u64, n: u64, out: &str) {
                 "upstream_hex": hex(&ub),
                 "transport": transport,
                 "advertised": q.opt.as_ref().map(|o| o.udp_size),
-                "repeat_after_s": if repeat { Some(1.3) } else { None },
+                "repeat_after_s": if repeat { Some(1.3) } else if second.is_some() { Some(0.3) } else { None },
+                "repeat_transport": second,
+                "upstream_udp_hex": upstream_udp.as_ref().map(|b| hex(b)),
             })
             .to_string(),
         );
@@ -106,7 +123,7 @@ pub fn judge(prop: &str, cases_path: &str, events_path: &str) -> Leg {
     let rule = if prop == "C03" {
         "end to end through the real erbium-dns: unique query names, every record layout with embedded names, classes IN/CH, EDNS on/off, DO/CD, rcodes 0..15 and extended, 0..12 records, compressed and uncompressed upstream encodings, UDP and TCP clients, upstream TC->TCP path, repeated queries served from the cache (TTL ageing); the bytes the client received are decoded by the reference decoder and compared section-wise with what the scripted upstream sent; distinct = (transport, section shape, rcode, repeated)"
     } else {
-        "end to end through the real erbium-dns: advertised sizes {none,0,256,512,513,1232,4096,65535} x upstream replies of 12..65000 octets (large ones via the upstream TC->TCP path) x UDP and TCP clients; response parses with counts = contents, UDP length <= max(512, advertised), kept records are a prefix, TC iff records omitted, TCP never truncated when the reply fits 65535; distinct = (transport, advertised, upstream-size class, truncated)"
+        "end to end through the real erbium-dns: advertised sizes {none,0,256,512,513,1232,4096,65535} x upstream replies of 12..65000 octets (large ones via the upstream TC->TCP path) x UDP and TCP clients, a third of the questions asked a second time over the other transport 0.3 s later (cache in between), oversized upstream replies truncated by the upstream either to nothing or to the whole records that fit; response parses with counts = contents, UDP length <= max(512, advertised), kept records are a prefix, TC iff records omitted, TCP never truncated when the reply fits 65535; distinct = (transport, advertised, upstream-size class, truncated)"
     };
     let mut leg = Leg::new(&format!("{}-relay-e2e-judge", prop.to_lowercase()), prop, rule);
     leg.floor = 50;
